@@ -670,11 +670,12 @@ func main() {
 			Script string   `json:"script"`
 			Abs    string   `json:"abs"`
 			Argv   []string `json:"argv"`
+			ScriptFile string `json:"script_file"`
 		}
 		if err := json.Unmarshal(b, &rj); err != nil {
 			panic(err)
 		}
-		jobs = append(jobs, Job{Cfg: rj.Cfg, Entry: rj.Entry, Kind: "replay", Form: "replay", Pre: rj.Pre, Script: rj.Script, Abs: rj.Abs, Argv: rj.Argv})
+		jobs = append(jobs, Job{Cfg: rj.Cfg, Entry: rj.Entry, Kind: "replay", Form: "replay", Pre: rj.Pre, Script: rj.Script, Abs: rj.Abs, Argv: rj.Argv, ScriptFile: rj.ScriptFile})
 	} else {
 		for _, cfg := range []string{"bare", "std", "full"} {
 			es, live := entriesOf(cfg)
@@ -779,12 +780,14 @@ func main() {
 	}
 	var binDefined []string
 	var cmdDiffs, cmdAll []cmdlineDiff
+	var sessAll []sessionObs
 	if zygoBin != "" && a.Replay == "" {
 		for k, v := range runBinary(root, zygoBin, binjobs, stats) {
 			results[k] = v
 		}
 		all := append(append([]string{}, cands...), specials...)
 		binDefined, _ = binaryNames(root, zygoBin, all)
+		sessAll = runSessions(root, zygoBin, a.Tier, all, specials, bound["std"], bound["full"], effectfulNames(tabs), &jobs, results, stats)
 		cmdDiffs, cmdAll = runCmdlines(root, zygoBin, a.Tier, rng.Fork(), all, specials, bound["std"], bound["full"], effectfulNames(tabs), &jobs, results, stats)
 	} else if zygoBin != "" {
 		// replay against the binary as well when the configuration asks for it
@@ -802,7 +805,11 @@ func main() {
 				panic(err)
 			}
 			r := &cmdRunner{zygoBin: zygoBin, dir: dir, can: can, stats: stats}
-			results[j.ID] = r.canary(cmdShape(j.Argv), j)
+			if j.ScriptFile != "" {
+				results[j.ID] = r.sessionOne(j)
+			} else {
+				results[j.ID] = r.canary(cmdShape(j.Argv), j)
+			}
 		}
 		for k, v := range runBinary(root, zygoBin, plain, stats) {
 			results[k] = v
@@ -833,13 +840,20 @@ func main() {
 			}
 			if len(findings) < 4000 {
 				findings = append(findings, map[string]interface{}{"id": j.ID, "cfg": j.Cfg, "entry": j.Entry, "kind": j.Kind, "form": j.Form,
-					"pre": j.Pre, "script": j.Script, "abs": j.Abs, "argv": j.Argv, "effects": r.Effects, "class": r.Class, "detail": r.Detail})
+					"pre": j.Pre, "script": j.Script, "abs": j.Abs, "argv": j.Argv, "script_file": j.ScriptFile, "effects": r.Effects, "class": r.Class, "detail": r.Detail})
 			}
 		}
 	}
 	// the command lines themselves: observed kind of interpreter vs the Coq model of the command line
 	for _, d := range cmdAll {
 		out.Case("cmdline "+d.Toks+" :: zygo "+d.Argv, d.Observed, true, "cfg:cmdline", "cmdline-observed:"+d.Observed)
+	}
+	for _, d := range sessAll {
+		fk := "K"
+		if d.Fails {
+			fk = "F"
+		}
+		out.Case("session "+d.Toks+" "+fk+" :: zygo "+d.Argv, d.Observed, true, "cfg:session", "session-observed")
 	}
 	out.Extra["effects_observed_by_cfg"] = effectSeen
 	out.Extra["run_stats"] = stats
